@@ -732,9 +732,20 @@ class Accumulator:
                 return leaves(v.body) + leaves(v.orelse)
             return [v]
 
+        fl = flow_of(func)
+
+        def unalias(name, at):
+            for _ in range(5):
+                ds = fl.reaching(name, at) if at is not None else []
+                if len(ds) == 1 and ds[0].kind == 'assign' and isinstance(ds[0].value, ast.Name):
+                    name, at = ds[0].value.id, ds[0].node
+                else:
+                    break
+            return name
+
         def plain(v):
             if isinstance(v, ast.Name):
-                return v.id, None
+                return unalias(v.id, fl.node_of_expr(v)), None
             m = match("$s.join($n)", v)
             if m and isinstance(m['n'], ast.Name) and const_str(m['s']) is not None:
                 return m['n'].id, const_str(m['s'])
